@@ -85,10 +85,11 @@ theorem rk23Loop_success_at_xend {σ : Type} (P : R23Params K n) (f : Rhs K n) (
       exact ih s' r h hs
 
 /-! ### RK4 -/
-theorem rk4_update_x (f : Nat → K → Vector K n → Vector K n) (y k1 k2 k3 k4 : Vector K n) (x h : K) (l : Bool) (e : K) :
-    (Gen.Rk4.update (f := f) (last := l) (xend := e) (h := h) (x := x) (k1 := k1) (k2 := k2) (k3 := k3) (k4 := k4) (y := y)).x
+theorem rk4_update_x (f g : Nat → K → Vector K n → Vector K n) (y y' k1 k1' k2 k3 k4 : Vector K n) (x h : K) (l : Bool) (e : K) :
+    (Gen.Rk4.update (f := f) (xph := (Gen.Rk4.stages (f := g) (y := y') (h := h) (k1 := k1') (x := x) (last := l) (xend := e)).xph)
+      (h := h) (k1 := k1) (k2 := k2) (k3 := k3) (k4 := k4) (y := y)).x
       = landX l e x h := by
-  simp [Gen.Rk4.update, landX]
+  simp [Gen.Rk4.update, Gen.Rk4.stages, landX, num_lit]
 
 /-- **C03, RK4.**  `Success` is reported only at `xend` (exact arithmetic): the last step is `xend − x`. -/
 theorem rk4Iter_success_at_xend {σ : Type} (P : R4Params K) (f : Rhs K n) (ob : Obs σ K n)
@@ -188,10 +189,12 @@ theorem rk23Loop_success_exact {σ : Type} (P : R23Params α n) (f : Rhs α n) (
       exact ih s' r h hs
 
 
-theorem rk4_update_x' (f : Nat → α → Vector α n → Vector α n) (y k1 k2 k3 k4 : Vector α n) (x h : α) (l : Bool) (e : α) :
-    (Gen.Rk4.update (f := f) (last := l) (xend := e) (h := h) (x := x) (k1 := k1) (k2 := k2) (k3 := k3) (k4 := k4) (y := y)).x
-      = landX l e x h := by
-  simp [Gen.Rk4.update, landX]
+/-- the new time of an RK4 step is the time of its last stage: `xend` itself on the landing step -/
+theorem rk4_update_x' (f g : Nat → α → Vector α n → Vector α n) (y y' k1 k1' k2 k3 k4 : Vector α n) (x h : α) (l : Bool) (e : α) :
+    (Gen.Rk4.update (f := f) (xph := (Gen.Rk4.stages (f := g) (y := y') (h := h) (k1 := k1') (x := x) (last := l) (xend := e)).xph)
+      (h := h) (k1 := k1) (k2 := k2) (k3 := k3) (k4 := k4) (y := y)).x
+      = if l then e else x + Gen.Rk4.C4 * h := by
+  simp [Gen.Rk4.update, Gen.Rk4.stages]
 
 /-- **C03, RK4, every arithmetic.**  `Success` is reported only at `xend` itself. -/
 theorem rk4Iter_success_exact {σ : Type} (P : R4Params α) (f : Rhs α n) (ob : Obs σ α n)
@@ -210,7 +213,7 @@ theorem rk4Iter_success_exact {σ : Type} (P : R4Params α) (f : Rhs α n) (ob :
         injection h with h
         rw [← h]
         rw [rk4_update_x']
-        simp [landX, hl]
+        simp [hl]
       · cases h
 
 theorem rk4Loop_success_exact {σ : Type} (P : R4Params α) (f : Rhs α n) (ob : Obs σ α n) :
